@@ -28,6 +28,7 @@ def processLine (line : String) : String :=
       | "xo" => handleXo kv
       | "xw" => handleXw kv
       | "fl" => handleFl kv
+      | "flr" => handleFlr kv
       | "win" => handleWin kv
       | "bz" => handleBz kv
       | "rle1e" => handleRle1e kv
